@@ -299,6 +299,27 @@ def harness_case(c):
     return {"prior": {"filter": [], "sets": []}, "cluster": c, "steps": [{"op": "start"}, {"op": "run"}]}
 
 
+def event_case(rng, c):
+    """the same final cluster reached through pod events after the full synchronisation: some pods appear (get their IP) only
+    after Run, and one of those IPs belonged to a pod of ANOTHER namespace that is deleted first (IP reuse); no policy event
+    in between, so only the incremental path (UpdatePod / DeletePod -> SyncPodIPInIPSet, SyncPodChains) maintains the sets"""
+    late = [p for p in c["pods"] if rng.random() < 0.5]
+    if not late:
+        late = [rng.choice(c["pods"])]
+    c0 = copy.deepcopy(c)
+    c0["pods"] = [p for p in c0["pods"] if not any(p["name"] == q["name"] and p["ns"] == q["ns"] for q in late)]
+    steps = [{"op": "start"}, {"op": "run"}]
+    q = late[0]
+    others = [n["name"] for n in c["namespaces"] if n["name"] != q["ns"]]
+    if others and rng.random() < 0.7:
+        ghost = {"ns": rng.choice(others), "name": "ghost", "labels": dict(q.get("labels") or {}), "ip": q["ip"], "node": q["node"]}
+        c0["pods"].append(ghost)
+        steps.append({"op": "del_pod", "ns": ghost["ns"], "name": ghost["name"]})
+    for p in late:
+        steps.append({"op": "set_pod", "pod": p})
+    return {"prior": {"filter": [], "sets": []}, "cluster": c0, "steps": steps}
+
+
 # ---------------------------------------------------------------------------- Coq evaluation of list-valued cases
 def coq_bool_lists(ctx, name, exprs, lens, shard=6):
     """each expression is a Coq [list bool] of known length; returns a list of python lists (None on failure)"""
@@ -381,8 +402,25 @@ def run(ctx):
         c = gen_cluster(rng, ctx)
         clusters.append(c)
         meta.append({"kind": "random", "flows": gen_flows(rng, c, not ctx.quick, cap)})
+    # the same clusters reached through pod events after the synchronisation (incremental path), verdicts only
+    n_ev = 60 if ctx.quick else 400
+    for c in [c for c, m in zip(clusters, meta) if m["kind"] == "random" and c["policies"]][:n_ev]:
+        clusters.append(c)
+        meta.append({"kind": "events", "flows": gen_flows(rng, c, not ctx.quick, cap)})
+        ctx.dist("cluster:reached-through-pod-events")
     cases = []
-    for c in clusters:
+    for c, m in zip(clusters, meta):
+        if m["kind"] == "events":
+            st = rng.getstate()
+            cases.append(event_case(rng, c))
+            rng.setstate(st)                      # the swapped run makes the same choices
+            ec = event_case(rng, c)
+            ec["cluster"] = swap_nodes(ec["cluster"])
+            for s_ in ec["steps"]:
+                if s_["op"] == "set_pod":
+                    s_["pod"] = dict(s_["pod"], node={"node1": "node2", "node2": "node1"}.get(s_["pod"]["node"], s_["pod"]["node"]))
+            cases.append(ec)
+            continue
         cases.append(harness_case(c))
         cases.append(harness_case(swap_nodes(c)))
     obs = ctx.harness("policy", cases, cmd="ghpol", shards=48)
@@ -413,8 +451,8 @@ def run(ctx):
     bad_corr, unexplained, by_mask, n_flows, n_dis = [], [], {}, 0, 0
     for i, bs in zip(idx, res):
         c, m = clusters[i], meta[i]
-        if not (bs[0] and bs[1]):
-            bad_corr.append(i)
+        if not (bs[0] and bs[1]) and m["kind"] != "events":
+            bad_corr.append(i)            # (after pod events the rule ORDER inside a chain may differ from a fresh Run: verdicts decide)
         seen_masks = set()
         for j, f in enumerate(m["flows"]):
             b = bs[2 + PER_FLOW * j: 2 + PER_FLOW * (j + 1)]
